@@ -22,8 +22,9 @@ ATTRS = {
 LENGTH_ATTRS = {"count_bounds_subarrays", "lower_bounds_length", "upper_bounds_length", "precisions_length", "bounds_length", "param_index"}
 
 
-def call(nb, lo, up, pr, scale: float, form: str, rtol: float = 0.0) -> dict:
-    """one SearchSpace(...) call; values are integer units of `scale`"""
+def call(nb, lo, up, pr, scale: float, form: str, rtol: float = 0.0, floats=None) -> dict:
+    """one SearchSpace(...) call; values are integer units of `scale` - or (floats given) arbitrary doubles for which the integers are
+    stand-ins with the same order relations and the same number of grid steps"""
     from black_it import search_space as ss
 
     # on scale 1 with form "int*" the raw Python integers are passed (users write bounds like [0, 10] with precision 1)
@@ -34,6 +35,12 @@ def call(nb, lo, up, pr, scale: float, form: str, rtol: float = 0.0) -> dict:
     for u in set(lo) | set(up) | set(pr):
         back[f(u)] = u
     flo, fup, fpr = [f(x) for x in lo], [f(x) for x in up], [f(x) for x in pr]
+    if floats is not None:
+        flo, fup, fpr = (list(x) for x in floats)
+        back = {}
+        for fs, us in ((flo, lo), (fup, up), (fpr, pr)):
+            for x, u in zip(fs, us):
+                back[x] = u
     bounds = [flo, fup][:nb] if nb <= 2 else [flo, fup, list(flo)]
     if form == "array" and nb == 2 and len(flo) == len(fup):
         bounds = np.array(bounds, dtype=int if as_int and scale == 1.0 else float).reshape(2, len(flo))
@@ -41,7 +48,9 @@ def call(nb, lo, up, pr, scale: float, form: str, rtol: float = 0.0) -> dict:
     else:
         prec = fpr
     ev = {"e": "case", "nb": nb, "lo": list(lo), "up": list(up), "pr": list(pr), "err": "none", "a": 0, "b": 0, "c": 0, "d": 0,
-          "lens": [], "firsts": [], "lasts": [], "even": True, "sizeok": True, "scale": scale, "form": form}
+          "lens": [], "firsts": [], "lasts": [], "even": True, "sizeok": True, "scale": scale, "form": form,
+          "absmax": max([abs(float(x)) for x in flo + fup] + [0.0]), "prmin": min([abs(float(x)) for x in fpr] + [float("inf")]),
+          "floats": [flo, fup, fpr] if floats is not None else None}
     try:
         with quiet():
             s = ss.SearchSpace(bounds, prec, verbose=False)
@@ -149,6 +158,23 @@ def run(tier: str) -> int:
         steps = [rng.choice([10, 99, 100, 1000, 10**4]) for _ in range(d)]
         up = [lo[j] + steps[j] * pr[j] for j in range(d)]
         events.append(call(2, lo, up, pr, rng.choice([1.0, 0.1, 0.01, 0.25]), rng.choice(["list", "array"]), rtol=1e-9))
+    # (c'') precisions within one unit in the last place of the range (the range itself being exact: bounds of one sign within a
+    #       factor of two): just above is an error, equal or just below gives the two-point grid
+    for _ in range(150 if tier == "quick" else 3000):
+        sgn = rng.choice([1.0, -1.0])
+        mag = rng.choice([1.0, 1e-3, 0.7, 1e16, 3.3e5, 2.0**-20])
+        a = sgn * mag * (1.0 + rng.randrange(0, 64) / 64.0)
+        r = abs(a) * rng.choice([0.5, 0.25, 0.1, 0.3, 1 / 3, 0.0123]) * rng.random()
+        b = a + r
+        if not (Fraction(b) - Fraction(a) > 0 and float(Fraction(b) - Fraction(a)) == b - a and Fraction(b - a) == Fraction(b) - Fraction(a)):
+            continue
+        if b - a < 1e-3 * max(1.0, 0.0):
+            continue
+        rngf = b - a
+        kind = rng.choice(["above", "equal", "below"])
+        pf = float(np.nextafter(rngf, np.inf)) if kind == "above" else rngf if kind == "equal" else float(np.nextafter(rngf, 0.0))
+        stand = {"above": ([0], [2], [3]), "equal": ([0], [2], [2]), "below": ([0], [3], [2])}[kind]
+        events.append(call(2, *stand, 1.0, rng.choice(["list", "array"]), rtol=1e-9, floats=([a], [b], [pf])))
     # (d) the two ends of the scale, where the fixed 1e-7 end-point tolerance matters: tiny precisions and huge bounds
     for _ in range(40 if tier == "quick" else 400):
         steps = rng.choice([10, 1000, 10**5])
@@ -159,7 +185,7 @@ def run(tier: str) -> int:
             events.append(call(2, [base], [base + steps * 25], [25], 1e4, "list", rtol=1e-9))
     traces = [[e] for e in events]
     res = tlc.validate_parallel("SearchSpaceTrace", "SearchSpaceTrace.cfg",
-                                [[{k: v for k, v in e.items() if k not in ("scale", "form")} for e in t] for t in traces], parts=12)
+                                [[{k: v for k, v in e.items() if k not in ("scale", "form", "absmax", "prmin", "floats")} for e in t] for t in traces], parts=12)
     chk.add_validation(res)
     chk.evaluations = len(events)
     chk.extra.update({"lattice_inputs_exhaustive_up_to_2_parameters": n_lat,
@@ -171,9 +197,9 @@ def run(tier: str) -> int:
         e = events[tid - 1]
         kind = "grid" if '"grid"' in why["why"] else "size" if '"size"' in why["why"] else "validation"
         key = f"{kind}:{e['err']}"
-        if kind == "grid" and min(e["pr"]) * e["scale"] < 1e-7:
+        if kind == "grid" and e["prmin"] < 1e-7:
             key += ":precision<1e-7"
-        elif kind == "grid" and max(abs(x) for x in e["up"]) * e["scale"] >= 2.0**30:
+        elif kind == "grid" and e["absmax"] >= 2.0**30:
             key += ":upper>=2^30"
         chk.violation(key, f"SearchSpace({e['form']}, scale {e['scale']}): {why['why']}", {"event": e, "tlc": why})
     return chk.finish("the whole value lattice ({-1,0,1,2} quick / {-2,-1,0,1,2,5} thorough; bounds with 1/2/3 sub-arrays, unequal lengths, "
@@ -185,8 +211,8 @@ def run(tier: str) -> int:
 def replay(rep: dict) -> int:
     chk = Check("C15", "quick")
     e = rep["event"]
-    ev = call(e["nb"], e["lo"], e["up"], e["pr"], e["scale"], e["form"], rtol=1e-9)
-    res = tlc.validate("SearchSpaceTrace", "SearchSpaceTrace.cfg", {"traces": [[{k: v for k, v in ev.items() if k not in ("scale", "form")}]]})
+    ev = call(e["nb"], e["lo"], e["up"], e["pr"], e["scale"], e["form"], rtol=1e-9, floats=e.get("floats"))
+    res = tlc.validate("SearchSpaceTrace", "SearchSpaceTrace.cfg", {"traces": [[{k: v for k, v in ev.items() if k not in ("scale", "form", "absmax", "prmin", "floats")}]]})
     chk.add_validation(res)
     for _tid, why in res["rejected"].items():
         chk.violation("replay", why["why"], {"event": ev})
